@@ -32,69 +32,128 @@ func ruleSCarry(c *Ctx) {
 		return
 	}
 	width := arr.Len()
-	onRecv := func(v ssa.Value) bool {
-		ia, ok := v.(*ssa.IndexAddr)
-		return ok && ia.X == ssa.Value(recv)
+	// the multiply-accumulate loop: in set58 itself, or in a helper method of the accumulator that
+	// set58 calls once per character and whose result is the carry out of the top byte
+	type idiom struct {
+		base, radix *big.Int
+		baseParam   int // >= 0: the base is this parameter of the helper
+		quo         *ssa.BinOp
+		stores      int
 	}
-	var base, radix *big.Int
-	var quo *ssa.BinOp
-	stores := 0
-	for _, b := range fn.Blocks {
-		for _, ins := range b.Instrs {
-			switch x := ins.(type) {
-			case *ssa.BinOp:
-				if x.Op == token.MUL {
-					for i, op := range []ssa.Value{x.X, x.Y} {
-						other := []ssa.Value{x.Y, x.X}[i]
-						k, isK := op.(*ssa.Const)
-						if !isK {
-							continue
-						}
-						if cv, ok := other.(*ssa.Convert); ok {
-							other = cv.X
-						}
-						if ld, ok := other.(*ssa.UnOp); ok && ld.Op == token.MUL && onRecv(ld.X) {
-							if v, ok := constValInt(k.Value); ok {
-								base = v
+	find := func(f *ssa.Function) idiom {
+		id := idiom{baseParam: -1}
+		r := f.Params[0]
+		onRecv := func(v ssa.Value) bool {
+			ia, ok := v.(*ssa.IndexAddr)
+			return ok && ia.X == ssa.Value(r)
+		}
+		for _, b := range f.Blocks {
+			for _, ins := range b.Instrs {
+				switch x := ins.(type) {
+				case *ssa.BinOp:
+					if x.Op == token.MUL {
+						for i, op := range []ssa.Value{x.X, x.Y} {
+							other := []ssa.Value{x.Y, x.X}[i]
+							if cv, ok := other.(*ssa.Convert); ok {
+								other = cv.X
+							}
+							ld, ok := other.(*ssa.UnOp)
+							if !ok || ld.Op != token.MUL || !onRecv(ld.X) {
+								continue
+							}
+							if k, isK := op.(*ssa.Const); isK {
+								if v, ok := constValInt(k.Value); ok {
+									id.base = v
+								}
+							}
+							for pi, p := range f.Params {
+								if op == ssa.Value(p) {
+									id.baseParam = pi
+								}
 							}
 						}
 					}
+					if x.Op == token.QUO {
+						if k, isK := x.Y.(*ssa.Const); isK {
+							if v, ok := constValInt(k.Value); ok {
+								id.radix, id.quo = v, x
+							}
+						}
+					}
+				case *ssa.Store:
+					if onRecv(x.Addr) {
+						id.stores++
+					}
 				}
-				if x.Op == token.QUO {
-					if k, isK := x.Y.(*ssa.Const); isK {
+			}
+		}
+		return id
+	}
+	loopCarry := func(quo *ssa.BinOp) *ssa.Phi {
+		if quo == nil || quo.Referrers() == nil {
+			return nil
+		}
+		for _, r := range *quo.Referrers() {
+			if ph, ok := r.(*ssa.Phi); ok && isLoopHeader(ph.Block()) {
+				return ph
+			}
+		}
+		return nil
+	}
+	id := find(fn)
+	var carry ssa.Value // the carry out of the top byte after one character, as seen in set58
+	var inner *ssa.BasicBlock
+	if id.base != nil && id.radix != nil && id.stores == 1 {
+		if ph := loopCarry(id.quo); ph != nil {
+			carry, inner = ph, ph.Block()
+		}
+	} else if id.stores == 0 {
+		for _, b := range fn.Blocks {
+			for _, ins := range b.Instrs {
+				call, ok := ins.(*ssa.Call)
+				if !ok || call.Call.StaticCallee() == nil || len(call.Call.Args) == 0 || call.Call.Args[0] != ssa.Value(recv) || len(call.Call.StaticCallee().Blocks) == 0 {
+					continue
+				}
+				h := call.Call.StaticCallee()
+				hid := find(h)
+				if hid.radix == nil || hid.stores != 1 {
+					continue
+				}
+				if hid.base == nil && hid.baseParam > 0 && hid.baseParam < len(call.Call.Args) {
+					if k, isK := call.Call.Args[hid.baseParam].(*ssa.Const); isK {
 						if v, ok := constValInt(k.Value); ok {
-							radix, quo = v, x
+							hid.base = v
 						}
 					}
 				}
-			case *ssa.Store:
-				if onRecv(x.Addr) {
-					stores++
+				// the helper returns the loop-carried quotient, and nothing else
+				ph := loopCarry(hid.quo)
+				okRet := ph != nil && hid.base != nil
+				for _, hb := range h.Blocks {
+					if ret, isRet := hb.Instrs[len(hb.Instrs)-1].(*ssa.Return); isRet {
+						if len(ret.Results) != 1 || ret.Results[0] != ssa.Value(ph) {
+							okRet = false
+						}
+					}
+				}
+				if okRet {
+					id, carry = hid, call
 				}
 			}
 		}
 	}
-	if base == nil || radix == nil || quo == nil || stores != 1 {
+	base, radix := id.base, id.radix
+	if base == nil || radix == nil || carry == nil {
 		c.Undecided("S-carry", key, fn.Pos(), "multiply-accumulate idiom not recognised (base, radix or the single accumulator store not found)")
 		return
 	}
 	capacity := new(big.Int).Exp(radix, big.NewInt(width), nil)
-	// the carry at inner-loop exit: header phi fed by the quotient
-	var carryPhi *ssa.Phi
-	if quo.Referrers() != nil {
-		for _, r := range *quo.Referrers() {
-			if ph, ok := r.(*ssa.Phi); ok && isLoopHeader(ph.Block()) {
-				carryPhi = ph
-			}
-		}
-	}
-	// outer loop: the header that dominates the inner header and is a loop header itself
+	// outer loop: the per-character loop, a loop header that dominates where the carry is produced
 	var outer *ssa.BasicBlock
-	if carryPhi != nil {
-		for _, b := range fn.Blocks {
-			if b != carryPhi.Block() && isLoopHeader(b) && b.Dominates(carryPhi.Block()) {
-				outer = b
-			}
+	carryBlock := carry.(ssa.Instruction).Block()
+	for _, b := range fn.Blocks {
+		if b != inner && isLoopHeader(b) && b.Dominates(carryBlock) {
+			outer = b
 		}
 	}
 	errorReturn := func(b *ssa.BasicBlock) bool {
@@ -118,14 +177,14 @@ func ruleSCarry(c *Ctx) {
 		return ok && k.Value != nil && k.Value.Kind() == constant.Int && constant.Sign(k.Value) == 0
 	}
 	// (a) carry test
-	if carryPhi != nil && outer != nil {
+	if outer != nil {
 		for _, b := range fn.Blocks {
 			iff, ok := b.Instrs[len(b.Instrs)-1].(*ssa.If)
 			if !ok {
 				continue
 			}
 			bo, ok := iff.Cond.(*ssa.BinOp)
-			if !ok || bo.X != ssa.Value(carryPhi) || !isZero(bo.Y) {
+			if !ok || bo.X != carry || !isZero(bo.Y) {
 				continue
 			}
 			var errSucc *ssa.BasicBlock
